@@ -32,7 +32,8 @@ Definition all_same_rep (r : uf) (l : list Z) : bool :=
 
 (* faces linked by sharing an undirected edge: pairs (f, g) *)
 Definition face_adj_pairs (faces : list face) : list (Z * Z) :=
-  flat_map (fun p => match direct_face faces (snd (fst p)) (fst (fst p)) with
+  let H := he_table faces in
+  flat_map (fun p => match df_lookup H (snd (fst p)) (fst (fst p)) with
                      | Some d => [(tF (snd p), tF d)]
                      | None => [] end) (half_edges faces).
 Definition faces_connected_b (faces : list face) : bool :=
@@ -40,7 +41,8 @@ Definition faces_connected_b (faces : list face) : bool :=
 
 (* ------------------------------------------------------------------ border *)
 Definition border_half_edges (faces : list face) : list (Z * Z) :=
-  filter (fun k => negb (memP (snd k, fst k) (dir_edges faces))) (dir_edges faces).
+  let D := dir_edges faces in
+  filter (fun k => negb (memP (snd k, fst k) D)) D.
 
 Fixpoint assocP (k : Z) (l : list (Z * Z)) : option Z :=
   match l with [] => None | (a, b) :: r => if a =? k then Some b else assocP k r end.
@@ -75,11 +77,12 @@ Definition cut_contains_border_b faces edges cut : bool := subsetZ (boundary_edg
 
 (* every singular vertex is an end of a cut edge *)
 Definition singus_on_cut_b edges cut (singus : list Z) : bool :=
-  forallb (fun s => memZ s (cut_vertices edges cut)) singus.
+  let V := cut_vertices edges cut in forallb (fun s => memZ s V) singus.
 (* every singular vertex has a copy on the border of the rebuilt mesh *)
 Definition singus_on_border_b (r : rebuilt) (singus : list Z) : bool :=
-  let bv := map fst (border_half_edges (out_faces r)) in
-  forallb (fun s => existsb (fun u => match ref_vertex r u with Some v => v =? s | None => false end) bv) singus.
+  let bv := flat_map (fun u => match ref_vertex r u with Some v => [v] | None => [] end)
+                     (map fst (border_half_edges (out_faces r))) in
+  forallb (fun s => memZ s bv) singus.
 
 (* ------------------------------------------------------------------ the dual tree handed over by the implementation *)
 (* faces containing both ends of edge e (triangles: the faces of which e is an edge) *)
@@ -89,14 +92,17 @@ Definition faces_of_edge (faces : list face) (edges : list (Z * Z)) (e : Z) : li
 
 (* rank certificate of acyclicity: every tree edge joins exactly two faces of different rank, and no face has two
    tree edges leading to faces of smaller rank *)
-Definition lower_tree_edges faces edges (T : list Z) (rk : Z -> Z) (f : Z) : list Z :=
-  filter (fun e => existsb (fun g => negb (g =? f) && (rk g <? rk f)) (faces_of_edge faces edges e)
-                   && memZ f (faces_of_edge faces edges e)) T.
+(* TF = the tree edges with their faces: [(e, faces_of_edge e)] *)
+Definition tree_faces faces edges (T : list Z) : list (Z * list Z) :=
+  map (fun e => (e, faces_of_edge faces edges e)) T.
+Definition lower_tree_edges (TF : list (Z * list Z)) (rk : Z -> Z) (f : Z) : list Z :=
+  map fst (filter (fun ef => existsb (fun g => negb (g =? f) && (rk g <? rk f)) (snd ef) && memZ f (snd ef)) TF).
 Definition forest_cert_b faces edges (T : list Z) (rk : Z -> Z) : bool :=
-  forallb (fun e => match faces_of_edge faces edges e with
-                    | [f; g] => negb (rk f =? rk g)
-                    | _ => false end) T
-  && forallb (fun f => zlen (dedup (lower_tree_edges faces edges T rk f)) <=? 1) (zrange (zlen faces))
+  let TF := tree_faces faces edges T in
+  forallb (fun ef => match snd ef with
+                     | [f; g] => negb (rk f =? rk g)
+                     | _ => false end) TF
+  && forallb (fun f => zlen (dedup (lower_tree_edges TF rk f)) <=? 1) (zrange (zlen faces))
   && (zlen (dedup T) =? zlen T)
   && forallb (fun e => (0 <=? e) && (e <? zlen edges)) T.
 
@@ -108,8 +114,35 @@ Definition dual_spanning_b faces edges (T : list Z) : bool :=
 
 (* the edge table lists every edge of every face exactly once, sorted ends *)
 Definition edges_table_ok_b (faces : list face) (edges : list (Z * Z)) : bool :=
-  forallb (fun k => memP k edges) (und_edges faces)
-  && forallb (fun k => memP k (und_edges faces)) edges
+  let U := und_edges faces in
+  forallb (fun k => memP k edges) U
+  && forallb (fun k => memP k U) edges
   && (zlen (dedupP edges) =? zlen edges).
+
+(* triangles with three distinct vertices *)
+Definition tri_ok_b (faces : list face) : bool :=
+  forallb (fun F => match F with
+                    | [a; b; c] => negb (a =? b) && negb (b =? c) && negb (a =? c)
+                    | _ => false end) faces.
+(* every pair of distinct vertices of a face is joined by an edge of the table *)
+Definition table_ok_b (faces : list face) (edges : list (Z * Z)) : bool :=
+  let ids := zrange (zlen edges) in
+  forallb (fun F => forallb (fun x => forallb (fun y => (x =? y) || existsb (fun e => joins edges e x y) ids) F) F) faces.
+(* no edge of S ends in a leaf of S, except at singular vertices *)
+Definition closed_set_b (edges : list (Z * Z)) (sing : Z -> bool) (S : list Z) : bool :=
+  forallb (fun e => forallb (fun v =>
+     sing v || existsb (fun e' => touches edges e' v && negb (other_end edges e' v =? other_end edges e v)) S)
+     [fst (ends edges e); snd (ends edges e)]) S.
+(* the two faces of each tree edge as direct_face sees them, and: these pairs link all faces *)
+Definition dual_pairs_df faces edges (T : list Z) : list (Z * Z) :=
+  let H := he_table faces in
+  flat_map (fun e => match df_lookup H (fst (ends edges e)) (snd (ends edges e)),
+                           df_lookup H (snd (ends edges e)) (fst (ends edges e)) with
+                     | Some d1, Some d2 => [(tF d1, tF d2)]
+                     | _, _ => [] end) T.
+Definition dual_spanning_df_b faces edges (T : list Z) : bool :=
+  all_same_rep (rep_of_pairs (dual_pairs_df faces edges T)) (zrange (zlen faces)).
+(* the whole edge table as a graph is connected *)
+Definition primal_connected_b (edges : list (Z * Z)) : bool := cut_connected_b edges (zrange (zlen edges)).
 
 Definition rank_of (l : list (Z * Z)) (f : Z) : Z := match assocP f l with Some r => r | None => -1 end.
